@@ -258,8 +258,8 @@ def c02_witnesses(tier='quick'):
         add('syntax-' + wid, f'#[nutype({attr})]\npub struct T({inner});\n', {'fail': None, 'msg': None}, f'malformed attribute `{attr}` is refused')
     add('syntax-twin', '#[nutype(validate(greater = 1, less = 10), derive(Debug, Clone, Default), default = 2, const_fn)]\npub struct T(i32);\n', 'pass',
         'twin: the well-formed spelling of the same attributes is accepted')
-    # literal-then-operator bounds are refused, not altered
-    add('lit-then-op', '#[nutype(validate(less = 1 << 4))]\npub struct T(i32);\n', {'fail': None, 'msg': None}, '`less = 1 << 4` (literal followed by an operator) is refused, not read as `less = 1`')
+    # literal-then-operator bounds (`less = 1 << 4`): refused today; "refused or enforced as written" is decided on the corpus
+    # declarations with expect = either (a tree that accepts them has to enforce 16, not 1)
     add('lit-then-op-twin', '#[nutype(validate(less = (1 << 4)))]\npub struct T(i32);\n', 'pass', 'twin: the parenthesised expression is accepted')
     add('neg-const', '#[nutype(validate(greater = -K))]\npub struct T(i32);\n', 'pass', '`greater = -K` is accepted (its meaning is checked on the MIR level)')
     add('neg-float-const', '#[nutype(validate(greater = -KF))]\npub struct T(f64);\n', 'pass', '`greater = -KF` is accepted')
